@@ -64,9 +64,11 @@ def special_poly(rng, labs):
     if r < 0.7 and len(labs) >= 2:      # x - y
         a, b = L(2)
         return [((a,), F(1)), ((b,), F(-1))] if rng.random() < 0.6 else [((a, b), F(1)), ((b,), F(-1))]
-    if r < 0.85:                        # non-negative coefficients with a negative offset (unary slack form)
+    if r < 0.82:                        # non-negative coefficients with a negative offset (unary slack form)
         ls = L(rng.randint(1, 3))
         return [((l,), F(rng.randint(1, 3))) for l in ls] + [((), F(-rng.randint(1, 4)))]
+    if r < 0.87:                        # a constant and nothing else (always / never satisfied), or nothing at all
+        return [((), F(rng.choice([-3, -1, 1, 2, 4])))] if rng.random() < 0.8 else []
     ls = L(rng.randint(1, 3))
     return [((l,), F(rng.choice([-2, -1, 1, 2]))) for l in ls] + [((), F(rng.randint(-2, 2)))]
 
